@@ -50,6 +50,7 @@ ASSUMPTIONS = [
 
 I = 1.0          # debounce interval of family (a)
 EPS = 1e-9
+START_CLOCK = 1000.0   # Sched's default start_clock (all times in the logs are absolute virtual times)
 
 
 # ==================================================================================================
@@ -88,6 +89,8 @@ class _CondProxy:
         return r
 
     def notify(self, n=1):
+        s = vsched.S
+        s.log.append(("dnotify", s.me().tid, s.clock))
         return self._c.notify(n)
 
     def notify_all(self):
@@ -140,6 +143,17 @@ class _LogHandler(logging.Handler):
                           str(record.exc_info[1])[:200] if et else None))
 
 
+def _notify_between(log, lo, hi, default):
+    """Index of the debouncer notify() issued by the thread that logged entry `lo`, before entry `hi`."""
+    if lo is None:
+        return default
+    tid = log[lo][-1]
+    for i in range(lo + 1, hi if hi is not None else len(log)):
+        if log[i][0] == "dnotify" and log[i][1] == tid:
+            return i
+    return default
+
+
 def _first(log, kind, start=0):
     for i in range(start, len(log)):
         if log[i][0] == kind:
@@ -151,7 +165,7 @@ class C18Harness(ex.Harness):
     family = "?"
 
     def outcome(self, res):
-        return repr(([e for e in res.log if e[0] not in ("dwait", "dwoke")], res.abort and res.abort[0],
+        return repr(([e for e in res.log if e[0] not in ("dwait", "dwoke", "dnotify")], res.abort and res.abort[0],
                      [(e[0], e[1]) for e in res.errors]))
 
     def common(self, res, out, deadlock_classifier):
@@ -227,7 +241,7 @@ class DebHarness(C18Harness):
         deb = logged_debouncer_class()(I, cb)
 
         def hand(k):
-            L(("hand", k, s.clock))
+            L(("hand", k, s.clock, s.me().tid))
             _guard(s, "handle_event()", deb.handle_event, evs[k])
             L(("handed", k, s.clock))
 
@@ -238,7 +252,7 @@ class DebHarness(C18Harness):
                 hand(k)
 
         def do_stop():
-            L(("stop_call", s.clock))
+            L(("stop_call", s.clock, s.me().tid))
             _guard(s, "stop()", deb.stop)
             L(("stop_ret", s.clock))
 
@@ -302,7 +316,7 @@ class DebHarness(C18Harness):
         def classify_deadlock(info, log):
             stuck = any("EventDebouncer.run" in " ".join(st) and str(b).startswith("('cond.wait'") for _, b, st in info)
             if stuck and stop_ret is not None:
-                if first_wait is None or first_wait > stop_call:
+                if first_wait is None or first_wait > _notify_between(log, stop_call, stop_ret, stop_call):
                     return "debouncer: stop() before the first wait() is lost, thread never exits (deadlock)"
                 return "debouncer: thread does not exit after stop() (deadlock)"
             return None
@@ -337,7 +351,8 @@ class DebHarness(C18Harness):
             missing = [k for k in range(n) if k in handed_i and handed_i[k] < quiescent
                        and not (k in seen and seen[k] < quiescent)]
             if missing:
-                if all(first_wait is None or handed_i[k] < first_wait for k in missing):
+                if all(first_wait is None or _notify_between(log, hand_i[k], handed_i[k], handed_i[k]) < first_wait
+                       for k in missing):
                     v("lost", "debouncer: event handed in before the first wait() is never delivered",
                       f"events {missing} undelivered at quiescence (all threads blocked, no timer pending)")
                 else:
@@ -413,12 +428,12 @@ class ARHarness(C18Harness):
             for k, g in enumerate(self.gaps):
                 if g:
                     vsched.vtime.sleep(g)
-                L(("ev_call", k, s.clock))
+                L(("ev_call", k, s.clock, s.me().tid))
                 _guard(s, "dispatch()", trick.dispatch, evs[k])
                 L(("ev_ret", k, s.clock))
 
         def do_stop():
-            L(("stop_call", s.clock))
+            L(("stop_call", s.clock, s.me().tid))
             _guard(s, "stop()", trick.stop)
             L(("stop_ret", s.clock) + snapshot())
 
@@ -463,7 +478,8 @@ class ARHarness(C18Harness):
         def classify_deadlock(info, log):
             stuck = any("EventDebouncer.run" in " ".join(st) and str(b).startswith("('cond.wait'") for _, b, st in info)
             in_stop = any("AutoRestartTrick.stop" in " ".join(st) for _, b, st in info)
-            if stuck and in_stop and stop_call is not None and (first_wait is None or first_wait > stop_call):
+            if stuck and in_stop and stop_call is not None and (
+                    first_wait is None or first_wait > _notify_between(log, stop_call, stop_ret, stop_call)):
                 return ("autorestart: stop() hangs joining the debouncer whose stop() came before its first wait() "
                         "(deadlock)")
             return None
@@ -506,7 +522,7 @@ class ARHarness(C18Harness):
                                       f"child {o['pid']} (spawned by {o['by']}) is alive")
                 break
 
-        end_t = log[-1][1] if log and log[-1][0] == "end" else (res.clock + vsched.Sched().start_clock)
+        end_t = START_CLOCK + res.clock
         ev_calls = {e[1]: i for i, e in enumerate(log) if e[0] == "ev_call"}
         ev_rets = {e[1]: i for i, e in enumerate(log) if e[0] == "ev_ret"}
         n_ev = len(ev_calls)
@@ -532,7 +548,8 @@ class ARHarness(C18Harness):
                         v("restart-count", "autorestart: an event did not restart the child exactly once",
                           f"event {k}: {len(inside)} spawns inside its dispatch() call")
                 elif not any(ci < c["i"] < limit for c in spawns):
-                    if self.deb and (first_wait is None or (ri is not None and ri < first_wait)):
+                    if self.deb and (first_wait is None or _notify_between(log, ci, ri, ri if ri is not None else ci)
+                                     < first_wait):
                         v("lost-trigger", "autorestart: debounced event handed in before the debouncer's first wait() "
                                           "never restarts the child", f"event {k} was followed by no spawn until quiescence")
                     else:
@@ -741,7 +758,7 @@ def setup(tier):
         instr_functions=hot,
         exclude=("BaseThread.__init__", "BaseThread.stopped_event", "Trick.", "LoggerTrick.",
                  "echo.<locals>.wrapped", "EventDebouncer.__init__", "ProcessWatcher.__init__",
-                 "AutoRestartTrick.__init__", "ShellCommandTrick.__init__", "<lambda>"))
+                 "AutoRestartTrick.__init__", "ShellCommandTrick.__init__"))
     desc["seams"] = seam
     hs = deb_harnesses(tier) + ar_harnesses(tier) + sc_harnesses(tier)
     names = [h.name for h in hs]
